@@ -304,9 +304,12 @@ func (t *Translator) closeCurrentBlockIfNeeded(state *StreamingState, blockType 
 
 // initializeToolBlock creates and sends a new tool_use block start event
 func (t *Translator) initializeToolBlock(id, name string, toolIndex int, state *StreamingState, w http.ResponseWriter, rc *http.ResponseController) error {
-	// close current text block before starting tool block, anthropic requires this
-	if err := t.closeCurrentBlockIfNeeded(state, contentTypeText, w, rc); err != nil {
-		return err
+	// close whatever block is open (text, or the previous tool call) before starting this
+	// tool block: anthropic allows only one open content block at a time
+	if state.currentBlock != nil {
+		if err := t.closeCurrentBlockIfNeeded(state, state.currentBlock.Type, w, rc); err != nil {
+			return err
+		}
 	}
 
 	state.currentBlock = &ContentBlock{
